@@ -164,6 +164,7 @@ class Ctx:
     bools: List[str] = field(default_factory=list)
     arrays: Dict[str, tuple] = field(default_factory=dict)   # name -> (vtype, rows, cols, symbolic)
     sym_scalars: List[str] = field(default_factory=list)     # scalars holding parameter expressions
+    reg_scalars: List[str] = field(default_factory=list)     # scalars holding expressions over measured registers
     params: List[str] = field(default_factory=list)          # parameter names available for {p}
     regs: List[str] = field(default_factory=list)            # register lexemes available
     loopvar: Optional[tuple] = None                           # (name, vtype)
@@ -330,6 +331,8 @@ def _num_operand(draw, ctx, depth, kind, symbolic, prev_op, base_positive_litera
             choices.append("symidx")
     if symbolic == "regs" and ctx.regs:
         choices += ["reg"] * 4
+        if ctx.reg_scalars:
+            choices += ["regvar"] * 3
     k = draw(st.sampled_from(choices))
     if k == "int":
         if not symbolic and draw(st.integers(0, 11)) == 0:
@@ -373,6 +376,8 @@ def _num_operand(draw, ctx, depth, kind, symbolic, prev_op, base_positive_litera
         return A.Operand(signs, draw(index_of(ctx, draw(st.sampled_from(sym_arrs)), -1)))
     if k == "reg":
         return A.Operand(signs, A.Reg(draw(st.sampled_from(ctx.regs))))
+    if k == "regvar":
+        return A.Operand(signs, A.Var(draw(st.sampled_from(ctx.reg_scalars))))
     # function call
     if kind == "any" and not symbolic and draw(st.integers(0, 9)) == 0:
         # a complex argument away from the axes (where the branch cuts are): a+bj with 0.3 <= |a|, |b| <= 3
@@ -425,7 +430,7 @@ def risky_symbolic(draw, ctx, symbolic):
     """Symbolic expressions around Blackbird's unusual binding of the unary minus (tighter than **):
     negated powers of nested bracketed bases, products with -1, leading negative terms."""
     sub = Ctx(ints=ctx.ints, floats=ctx.floats, params=ctx.params, regs=ctx.regs, sym_scalars=ctx.sym_scalars,
-              arrays=ctx.arrays, loopvar=ctx.loopvar, depth=2)
+              reg_scalars=ctx.reg_scalars, arrays=ctx.arrays, loopvar=ctx.loopvar, depth=2)
     inner = draw(num_expr(sub, 2, "real", symbolic))
     leaf = A.Param(draw(st.sampled_from(ctx.params))) if symbolic == "params" else A.Reg(draw(st.sampled_from(ctx.regs)))
     # base: (leaf + (inner)/c) or ((inner)*leaf + c) ... always depends on a symbol and has a nested bracket
@@ -581,7 +586,7 @@ def statement(draw, ctx, symbolic=None, max_mode=12, balanced=False, allow_array
 
 def _forget(ctx, name):
     """Remove a name from the context before it is declared again."""
-    for lst in (ctx.ints, ctx.floats, ctx.complexes, ctx.strs, ctx.bools, ctx.sym_scalars):
+    for lst in (ctx.ints, ctx.floats, ctx.complexes, ctx.strs, ctx.bools, ctx.sym_scalars, ctx.reg_scalars):
         while name in lst:
             lst.remove(name)
     ctx.arrays.pop(name, None)
@@ -629,6 +634,15 @@ def scalar_decl(draw, ctx, symbolic=None):
                               init.ops + ["+"])
             ctx.used.add(name)
             ctx.sym_scalars.append(name)
+            return A.ScalarDecl(vtype, name, init)
+        if symbolic == "regs" and ctx.regs and draw(st.integers(0, 2)) == 0:
+            # a variable holding an expression over measured registers (float fb = 0.5*q0 - q12/4): statements that mention
+            # the variable depend on those registers without writing any register themselves
+            init = draw(num_expr(ctx, kind="real", symbolic="regs"))
+            if not any(isinstance(p, A.Reg) or (isinstance(p, A.Var) and p.name in ctx.reg_scalars) for p in A.walk_prims(init)):
+                init = A.Flat(init.operands + [A.Operand("", A.Reg(draw(st.sampled_from(ctx.regs))))], init.ops + ["+"])
+            ctx.used.add(name)
+            ctx.reg_scalars.append(name)
             return A.ScalarDecl(vtype, name, init)
         init = draw(num_expr(ctx, kind="real"))
     elif vtype == "complex":
@@ -844,6 +858,7 @@ class Cfg:
     balanced_modes: bool = False
     sym_vars: bool = True            # parameters in scalar initialisers / arrays
     sym_scalars: bool = True         # parameters in scalar initialisers
+    reg_vars: bool = True            # register expressions in scalar initialisers
     min_loops: int = 0
     stmt_weight: int = 3
     array_args: bool = True
@@ -915,7 +930,10 @@ def script(draw, cfg=Cfg()):
             items.append(draw(statement(ctx, symbolic=arg_sym, max_mode=cfg.max_mode, balanced=cfg.balanced_modes,
                                         allow_arrays=cfg.array_args)))
         elif k == "scalar":
-            items.append(draw(scalar_decl(ctx, symbolic=symbolic if (cfg.sym_vars and cfg.sym_scalars) else None)))
+            sc_sym = symbolic if (cfg.sym_vars and cfg.sym_scalars) else None
+            if cfg.regs and cfg.reg_vars and arg_sym == "regs":
+                sc_sym = "regs"
+            items.append(draw(scalar_decl(ctx, symbolic=sc_sym)))
         elif k == "array":
             nm = None
             if cfg.tdm and draw(st.booleans()):
